@@ -1,6 +1,10 @@
 /* C14 harness: sc_shmem_* and the node communicators of the real libsc on the simulated MPI.
    stdin: one run per line:
-     <P> <seed> <adversary> <ppn_attach> <ppn_sim> <noncontig> <flavour> <dtype> <count> <dataseed> <sync> <dup>
+     <P> <seed> <adversary> <ppn_attach> <ppn_sim> <noncontig> <flavour> <dtype> <count> <dataseed> <sync> <dup> <stype> <rtype>
+       stype, rtype: how sc_shmem_allgather DESCRIBES the count * sizeof (dtype) bytes every rank contributes: on the send side as
+                   items of type stype, on the receive side as items of type rtype (codes as dtype, 8 = sc_MPI_BYTE,
+                   9 = sc_MPI_2INT; -1 = dtype itself); the counts are the byte length divided by the size of the type (a
+                   length that is not a multiple is refused: rc=-1).  sc_shmem_prefix is typed by dtype, sc_shmem_memcpy by bytes.
        dup:        1: after attach + set_type the communicator is duplicated with MPI_Comm_dup (the attribute copy
                    callbacks run) and EVERYTHING below (grid report, arrays, write rounds) happens on the duplicate;
                    then the duplicate is freed (its inherited node communicators must go with it), the original must
@@ -34,7 +38,7 @@
 #define RUN_SECONDS 20
 static void on_alarm (int sig) { static const char m[] = "\nHANG\n"; (void) sig; if (write (1, m, sizeof m - 1) < 0) { } _exit (3); }
 
-typedef struct { int ppn_attach, flavour, dtype, count, sync, dup; unsigned dseed; char **out; } arg_t;
+typedef struct { int ppn_attach, flavour, dtype, count, sync, dup, stype, rtype; unsigned dseed; char **out; } arg_t;
 
 static unsigned mix (unsigned a, unsigned b, unsigned c)
 {
@@ -43,10 +47,11 @@ static unsigned mix (unsigned a, unsigned b, unsigned c)
   return x;
 }
 
-static const int tsize[8] = { 1, 2, 2, 4, 4, 8, 8, 8 };
+static const int tsize[10] = { 1, 2, 2, 4, 4, 8, 8, 8, 1, 8 };
 static sc_MPI_Datatype mpitype (int d)
 {
   switch (d) {
+  case 8: return sc_MPI_BYTE;  case 9: return sc_MPI_2INT;
   case 0: return sc_MPI_CHAR;  case 1: return sc_MPI_SHORT;  case 2: return sc_MPI_UNSIGNED_SHORT;
   case 3: return sc_MPI_INT;   case 4: return sc_MPI_UNSIGNED;  case 5: return sc_MPI_LONG;
   case 6: return sc_MPI_UNSIGNED_LONG;  default: return sc_MPI_LONG_LONG_INT;
@@ -110,7 +115,11 @@ static void rank_main (int rank, int size, void *varg)
   simmpi_trace_note ("mA");
   char *A = (char *) sc_shmem_malloc (sc_package_id, (size_t) ts, (size_t) size * cnt, comm);
   simmpi_trace_note ("ag");
-  sc_shmem_allgather (mine, cnt, mpitype (a->dtype), A, cnt, mpitype (a->dtype), comm);
+  {
+    /* the same cnt * ts bytes, described by the send and by the receive signature */
+    const int st = a->stype < 0 ? a->dtype : a->stype, rt = a->rtype < 0 ? a->dtype : a->rtype;
+    sc_shmem_allgather (mine, cnt * ts / tsize[st], mpitype (st), A, cnt * ts / tsize[rt], mpitype (rt), comm);
+  }
   simmpi_trace_note ("mB");
   char *B = (char *) sc_shmem_malloc (sc_package_id, (size_t) ts, (size_t) (size + 1) * cnt, comm);
   simmpi_trace_note ("pre");
@@ -178,9 +187,11 @@ int main (void)
   snprintf (tpath, sizeof tpath, "%s/trace.%d.jsonl", getenv ("VERIF_SCRATCH") ? getenv ("VERIF_SCRATCH") : "/var/tmp", (int) getpid ());
   while (fgets (line, sizeof line, stdin)) {
     int P, adv, ppn_sim, noncontig; unsigned long seed; arg_t a;
-    a.sync = 1; a.dup = 0;
-    if (sscanf (line, "%d %lu %d %d %d %d %d %d %d %u %d %d", &P, &seed, &adv, &a.ppn_attach, &ppn_sim, &noncontig, &a.flavour, &a.dtype, &a.count, &a.dseed, &a.sync, &a.dup) < 10) continue;
-    if (P < 1 || a.dtype < 0 || a.dtype > 7 || a.count < 0 || a.flavour < 0 || a.flavour >= (int) SC_SHMEM_NUM_TYPES) { printf ("RUN %d rc=-1 steps=0\nEND %d mem=0\n", run, run); ++run; continue; }
+    a.sync = 1; a.dup = 0; a.stype = a.rtype = -1;
+    if (sscanf (line, "%d %lu %d %d %d %d %d %d %d %u %d %d %d %d", &P, &seed, &adv, &a.ppn_attach, &ppn_sim, &noncontig, &a.flavour, &a.dtype, &a.count, &a.dseed, &a.sync, &a.dup, &a.stype, &a.rtype) < 10) continue;
+    if (P < 1 || a.dtype < 0 || a.dtype > 7 || a.count < 0 || a.flavour < 0 || a.flavour >= (int) SC_SHMEM_NUM_TYPES
+        || a.stype < -1 || a.stype > 9 || a.rtype < -1 || a.rtype > 9
+        || (a.stype >= 0 && (a.count * tsize[a.dtype]) % tsize[a.stype]) || (a.rtype >= 0 && (a.count * tsize[a.dtype]) % tsize[a.rtype])) { printf ("RUN %d rc=-1 steps=0\nEND %d mem=0\n", run, run); ++run; continue; }
     a.out = (char **) calloc ((size_t) P, sizeof (char *));
     int mem0 = sc_memory_status (-1) + sc_memory_status (sc_package_id);
     simmpi_opts o; simmpi_report rep;
